@@ -26,7 +26,8 @@ import yaml
 import common
 import proofs
 
-FILES = ["Model_scsv.v", "Proofs_scsv.v", "Model_scsv_frame.v", "Proofs_scsv_frame.v", "Entry_scsv.v"]
+FILES = ["Model_scsv.v", "Proofs_scsv.v", "Model_scsv_frame.v", "Proofs_scsv_frame.v", "Model_scsv_header.v",
+         "Proofs_scsv_header.v", "Entry_scsv.v"]
 PROP = "Properties/C16.v"
 WS = " \t\n\r\x0b\x0c\x1c\x1d\x1e\x1f"
 TYPEMAP = {"string": str, "integer": int, "float": float, "boolean": bool, "complex": complex}
@@ -130,7 +131,7 @@ def pool_definitions(terms):
     out = []
     for s, n in _POOL.items():
         if n in used:
-            lit = '"%s"' % s if _LIT.match(s) else '(h "%s")' % s.encode("utf-8").hex()
+            lit = '"%s"' % s if _LIT.match(s) else '(h "%s")' % s.encode("utf-8", "surrogatepass").hex()
             out.append("Definition %s : string := Eval vm_compute in %s.\n" % (n, lit))
     return "".join(out)
 
@@ -316,7 +317,7 @@ def delim_err(d):
 # decoding of the model's output
 # ----------------------------------------------------------------------------------------
 def unhex(x):
-    return bytes.fromhex(x).decode("utf-8")
+    return bytes.fromhex(x).decode("utf-8", "surrogatepass")
 
 
 def dec_ftok(x):
@@ -596,7 +597,8 @@ def classify(s, data, loaded):
         return "C16:read_scsv:single-column-yaml-fence"
     if dash_fence_rows(s["delimiter"], zip(*out_texts(s, data))):
         return "C16:read_scsv:dash-delimited-empty-row-is-fence"
-    if yaml_special(s["delimiter"]) or yaml_special(s["missing"]):
+    if yaml_special(s["delimiter"]) or yaml_special(s["missing"]) or any(
+            yaml_special(x) for f in s["fields"] for x in (f.get("name"), f.get("fill")) if isinstance(x, str)):
         return "C16:write_scsv_header:yaml-special-character"
     if loaded is None:
         return "C16:write_scsv_header:scalar-breaks-yaml"
@@ -638,10 +640,10 @@ def classify(s, data, loaded):
 # ----------------------------------------------------------------------------------------
 NAMES_OK = ["a", "b", "col_1", "x2", "Temp", "strain", "angle", "ϕ", "名前", "é", "m_index", "T", "fabric", "study", "z9", "none"]
 NAMES_HOSTILE = ["yes", "null", "on", "true", "_hidden", "class", "None"]
-DELIMS = [",", ",", ",", ";", "\t", "|", ":", "/", "#", "e", "0", "¦", "→", "~", "&"]
-MISSING_OK = ["-", "-", "", "NA", "N/A", "?", "--", "∅", "—", "nul", "NaN", "nan", "None", "9999", "-1", "True", "1.0", "---", "(nan+0j)"]
+DELIMS = [",", ",", ",", ";", "\t", "|", ":", "/", "#", "e", "0", "¦", "→", "~", "&", "\U0001f539"]
+MISSING_OK = ["-", "-", "", "NA", "N/A", "?", "--", "∅", "—", "nul", "NaN", "nan", "None", "9999", "-1", "True", "1.0", "---", "(nan+0j)", "\U0001f600", "n\U0001d4dca", "\ufeff"]
 FILLS_OK = {
-    "string": [None, "MISSING", "N/A", "x y", "ü", "-", "none", "a,b", "missing value"],
+    "string": [None, "MISSING", "N/A", "x y", "ü", "-", "none", "a,b", "missing value", "\U0001f600", "f\U00020000g"],
     "integer": ["0", "999999", "-1", 7, "12345678901234567890", -5],
     "float": ["NaN", "nan", "0.0", "-0.0", "inf", "-inf", "1e+300", 0, 1.5, "-999.0", "2.5", -1],
     "boolean": [None, None, "True", "yes", True, False, "", "False", 0],
@@ -655,7 +657,8 @@ FILLS_HOSTILE = {
     "boolean": [],
 }
 STR_CELLS = ["", "s1", "B, b", 'q"r', "x y", "ü∅", "1.0", "10", "-", "NaN", "None", "nan", "#c", "a;b|c", "it's", "e", "0",
-             "true", "MISSING", "N/A", "---", "--", "(1+2j)", "名", "a\tb", "→", "~", ":", "/"]
+             "true", "MISSING", "N/A", "---", "--", "(1+2j)", "名", "a\tb", "→", "~", ":", "/", "\U0001f600", "c\U0001d4dcd", "a\u2028b",
+             "\ufeffx", "x\x7fy", "\U0010ffff"]
 STR_CELLS_BAD = [" lead", "trail ", "\tx", "a\nb", "c\rd", "x\n"]
 FLOATS = [float("nan"), float("inf"), float("-inf"), 0.0, -0.0, 1.5, 0.1, 1e22, 5e-324, 1.7976931348623157e308,
           -999.0, 2.5, 1e300, 1.0, 1e16, 123456.789, -1.0, 0.5]
@@ -983,6 +986,118 @@ def edit_frame(rng, kind, text, s):
     return "\n".join(lines) + tail
 
 
+# ----------------------------------------------------------------------------------------
+# code points of every plane / category that YAML, csv or str.strip treat specially (added after seeded change C16d)
+# ----------------------------------------------------------------------------------------
+UNI_FAMILIES = {
+    # supplementary planes (UTF-16 surrogate pairs; 4 bytes in UTF-8)
+    "astral-first-U+10000": "\U00010000", "astral-emoji-U+1F600": "\U0001f600", "astral-math-U+1D4DC": "\U0001d4dc",
+    "astral-cjk-ext-b-U+20000": "\U00020000", "astral-tag-U+E0001": "\U000e0001", "astral-pua-U+F0000": "\U000f0000",
+    "astral-nonchar-U+1FFFF": "\U0001ffff", "astral-last-U+10FFFF": "\U0010ffff",
+    # line breaks and separators outside ASCII
+    "NEL-U+0085": "\x85", "LS-U+2028": "\u2028", "PS-U+2029": "\u2029",
+    # BOM, DEL, C1 controls, non-characters, specials
+    "BOM-U+FEFF": "\ufeff", "DEL-U+007F": "\x7f", "C1-U+0080": "\x80", "C1-U+0090": "\x90", "C1-U+009F": "\x9f",
+    "nonchar-U+FFFE": "\ufffe", "nonchar-U+FFFF": "\uffff", "nonchar-U+FDD0": "\ufdd0", "replacement-U+FFFD": "\ufffd",
+    "last-before-surrogates-U+D7FF": "\ud7ff", "first-after-surrogates-U+E000": "\ue000",
+    # white space / format characters of the BMP
+    "NBSP-U+00A0": "\xa0", "ideographic-space-U+3000": "\u3000", "ZWJ-U+200D": "\u200d", "RLO-U+202E": "\u202e",
+    "combining-U+0301": "\u0301", "soft-hyphen-U+00AD": "\xad",
+    # Latin-1 / BMP letters (controls of the comparison: these always worked)
+    "latin1-U+00E9": "\xe9", "cjk-U+4E2D": "\u4e2d",
+    # C0 controls, NUL
+    "C0-US-U+001F": "\x1f", "C0-VT-U+000B": "\x0b", "NUL-U+0000": "\x00", "tab": "\t",
+    # the characters quoting is about
+    "apostrophe": "'", "double-quote": '"', "backslash": "\\",
+}
+UNI_POSITIONS = ("delimiter", "missing-embedded", "missing-bare", "fill-embedded", "fill-bare", "cell-embedded", "cell-bare", "name")
+UNITS = ["percent", "\xb5m", "m/s", "\U0001d4dc", "kg"]
+
+
+def gen_unicode_cases(rng):
+    """one valid schema + representable columns per (special code point, position in the schema / data)"""
+    out = []
+    for fam, ch in UNI_FAMILIES.items():
+        ws = ch.strip() == ""
+        for pos in UNI_POSITIONS:
+            d, m, sfill, cell, name = ",", "-", "unknown", "s1", "label"
+            if pos == "delimiter":
+                # NEL is folded to a space by YAML: the file is then split at another delimiter and the cells keep the NEL,
+                # which the model's ASCII strip does not cover -- the family is exercised in the other positions
+                if ch in ' "\n\r' or ch == "\x85":
+                    continue
+                d = ch
+            elif pos == "missing-embedded":
+                m = "a" + ch + "b"
+            elif pos == "missing-bare":
+                if ws:
+                    continue
+                m = ch
+            elif pos == "fill-embedded":
+                sfill = "f" + ch + "g"
+            elif pos == "fill-bare":
+                if ws:
+                    continue
+                sfill = ch
+            elif pos == "cell-embedded":
+                cell = "c" + ch + "d"
+            elif pos == "cell-bare":
+                if ws:
+                    continue
+                cell = ch
+            elif pos == "name":
+                name = "n" + ch
+                if not (name.isidentifier() and namedtuple_ok([name, "count"])):
+                    continue
+            if d in m or m == d or cell == m or sfill == m:
+                continue
+            t2 = ["integer", "float", "complex"][rng.integers(3)]
+            f2 = {"integer": -1, "float": "NaN", "complex": "0j"}[t2]
+            v2 = {"integer": [3, -1, 10 ** 20], "float": [1.5, float("nan"), float("-inf")], "complex": [1 + 2j, 0j, -3.5j]}[t2]
+            fields = [{"name": name, "type": "string", "fill": sfill}, {"name": "count", "type": t2, "fill": f2}]
+            if rng.random() < 0.4:
+                fields[int(rng.integers(2))]["unit"] = UNITS[rng.integers(len(UNITS))]
+            out.append({"kind": "rt", "stream": "unicode", "family": fam, "position": pos,
+                        "schema": {"delimiter": d, "missing": m, "fields": fields}, "data": [["p", sfill, cell], v2],
+                        "comments": ["\U0001f600 comment"] if rng.random() < 0.1 else None})
+    return out
+
+
+QUOTE_EXTRA = ["", "'", "''", "it's", "a''b'", "'a'", '"', "\\", "a b", " lead", "trail ", "x: y", "#", "~", "null", "010", "yes"]
+UNQUOTE_TEXTS = ["'a'b'", "'a", "a'", "'a''", "'", "''", "'" * 4, "'a''b'", "'\U0001f600'", "", "'a'b"]
+
+
+def yaml_single_quoted(text):
+    """what PyYAML makes of a one-line scalar text that starts with an apostrophe -> ('OK', str) | ('ERR',)"""
+    try:
+        v = yaml.safe_load("k: " + text)
+    except yaml.YAMLError:
+        return ("ERR",)
+    if isinstance(v, dict) and isinstance(v.get("k"), str) and text.startswith("'"):
+        return ("OK", v["k"])
+    return ("ERR",)
+
+
+def gen_quote_cases(cases):
+    """every special code point bare and embedded, the quoting corner cases, and every string scalar of the unicode stream"""
+    xs = list(QUOTE_EXTRA)
+    for ch in UNI_FAMILIES.values():
+        xs += [ch, "a" + ch + "b", ch + "'" + ch]
+    for c in cases:
+        if c.get("stream") == "unicode":
+            s = c["schema"]
+            xs += [s["delimiter"], s["missing"]] + [f["name"] for f in s["fields"]] + \
+                  [f["fill"] for f in s["fields"] if isinstance(f.get("fill"), str)]
+    seen, out = set(), []
+    for x in xs:
+        if x not in seen:
+            seen.add(x)
+            out.append({"kind": "quote", "stream": "quote", "text": x})
+    for t in UNQUOTE_TEXTS:
+        out.append({"kind": "unquote", "stream": "quote", "text": t})
+    return out
+
+
 def gen_cases(chk, tier):
     rng = np.random.default_rng(chk.seed)
     scale = 1 if tier == "quick" else 6
@@ -1076,6 +1191,10 @@ def gen_cases(chk, tier):
                 data = gen_data(rng, s, nrows=int(rng.integers(1, 4)))
             cases.append({"kind": "file", "stream": "frame", "framed": True, "fault": "frame_" + kind, "schema": s, "data": data,
                           "r": int(rng.integers(1 << 30)), "comments": ["written by the check", "second: line"] if k == 0 else None})
+    # (9) special code points of every plane in every position of the schema / data; the quoting function itself
+    uni = gen_unicode_cases(rng)
+    cases += uni
+    cases += gen_quote_cases(uni)
     # state between calls: every 8th round trip is run twice
     for i, c in enumerate(cases):
         if c["kind"] == "rt" and i % 8 == 0:
@@ -1095,6 +1214,17 @@ def prepare(impl, c):
         except Exception as e:  # noqa: BLE001
             c["impl"] = ("ERR", exc_enum(e))
         return "(run_terse %s)" % cs(c["text"])
+    if c["kind"] == "quote":
+        x = c["text"]
+        try:
+            qd = impl.io._yaml_quote(x)
+            c["impl"] = ("OK", qd, yaml_single_quoted(qd) if isinstance(qd, str) else ("ERR",))
+        except Exception as e:  # noqa: BLE001
+            c["impl"] = ("ERR", exc_enum(e))
+        return "(run_quote %s)" % cs(x)
+    if c["kind"] == "unquote":
+        c["impl"] = yaml_single_quoted(c["text"])
+        return "(run_unquote %s)" % cs(c["text"])
     s, data = c["schema"], c["data"]
     c["impl_validate"] = impl.validate(s)
     before = (json.dumps(s, sort_keys=True, default=repr), repr(data))
@@ -1170,7 +1300,10 @@ def prepare(impl, c):
             tbl, clist(lines, cs), clist(yl, cs), y, clist(cl, cs), cres(rows, lambda rr: clist(rr, lambda r_: clist(r_, cs))))
     if c["kind"] == "file":
         return "(run_read %s %s)" % (tbl, y)
-    return "(run_rt %s %s %s %s)" % (tbl, cschema(s), y, clist(data, lambda col: clist(col, ccell)))
+    fl = s.get("fields") if isinstance(s.get("fields"), list) else []
+    units = [f.get("unit") if isinstance(f, dict) and isinstance(f.get("unit"), str) else None for f in fl]
+    return "(run_rt_h %s %s %s %s %s %s)" % (tbl, cschema(s), y, clist(data, lambda col: clist(col, ccell)),
+                                               clist(c.get("comments") or [], cs), clist(units, lambda u: copt(u, cs)))
 
 
 def run_coq(terms, tag):
@@ -1278,8 +1411,38 @@ def compare(chk, cases, outs):
             if m["T"] != exp:
                 bad.append((c, f"parse_scsv_schema({c['text']!r}): implementation {exp}, model {m['T']}"))
             continue
+        if c["kind"] == "quote":
+            x, r = c["text"], c["impl"]
+            mq, mu = unhex(m["Q"]), m["U"]
+            count("quote_text_class", "yaml-special" if yaml_special(x) else "has line break" if ("\n" in x or "\r" in x)
+                  else "astral" if any(ord(ch) >= 0x10000 for ch in x) else "has apostrophe" if "'" in x else "ascii" if x.isascii() else "bmp")
+            chk.note_case(("quote", x), nontrivial=True, sample={"text": x, "impl": list(r[:2]), "model": mq} if len(x) < 4 and "'" in x else None)
+            if mu != "S" + x.encode("utf-8", "surrogatepass").hex():
+                bad.append((c, f"model contradicts C16_yaml_quote_roundtrip on {x!r}: {mu}"))
+            if r[0] != "OK" or r[1] != mq:
+                bad.append((c, f"_yaml_quote({x!r}): implementation {r[1]!r}, model {mq!r}"))
+            elif not yaml_special(x) and "\n" not in x and "\r" not in x:
+                # hypothesis about PyYAML: a one-line single-quoted scalar of YAML-verbatim characters loads as unquote says
+                count("yaml_single_quoted_scalar_loads_back", r[2] == ("OK", x))
+                if r[2] != ("OK", x):
+                    bad.append((c, f"residual: PyYAML loads the quoted scalar {r[1]!r} as {r[2]}, the scanner model gives {x!r}"))
+            else:
+                count("yaml_single_quoted_scalar_loads_back", "not verbatim in YAML: " + ("same" if r[2] == ("OK", x) else "differs / refused"))
+            continue
+        if c["kind"] == "unquote":
+            r = c["impl"]
+            exp = "S" + r[1].encode("utf-8", "surrogatepass").hex() if r[0] == "OK" else "-"
+            count("unquote_result", "accepted" if r[0] == "OK" else "refused")
+            chk.note_case(("unquote", c["text"]), nontrivial=True, sample=None)
+            if m["U"] != exp:
+                bad.append((c, f"single-quoted scalar {c['text']!r}: PyYAML {r}, model {m['U']}"))
+            continue
         s, data, r = c["schema"], c["data"], c["impl"]
         fs = s.get("fields") if isinstance(s.get("fields"), list) else []
+        if c.get("stream") == "unicode":
+            count("unicode_family", c["family"])
+            count("unicode_position", c["position"])
+            count("unicode_outcome_by_position", c["position"] + ": " + (r[0] if r[0] == "OK" else r[0] + ":" + r[1]))
         count("n_fields", len(fs))
         count("n_rows", len(data[0]) if data else "no columns")
         for f in fs:
@@ -1346,6 +1509,18 @@ def compare(chk, cases, outs):
                 bad.append((c, f"save_scsv wrote a file, model save: {m['S']}"))
             else:
                 parts = c["text"].split("---" + os.linesep, 2)
+                # the header block, byte-wise against the model of write_scsv_header
+                ml = dec_res(m["L"], lambda x: [unhex(t[1:]) for t in x.split(",")] if x else [])
+                if ml[0] == "OK":
+                    want_hdr = "".join(ln + os.linesep for ln in ml[1])
+                    count("header_block_compared", len(parts) == 3 and parts[1] == want_hdr)
+                    if len(parts) != 3 or parts[1] != want_hdr:
+                        bad.append((c, f"header block differs: implementation {parts[1][:300] if len(parts) == 3 else c['text'][:300]!r}, "
+                                       f"model header_lines {want_hdr[:300]!r}"))
+                elif ml[1] == "EUnmodelled":
+                    count("header_block_compared", "outside the header model (fill of another type)")
+                else:
+                    bad.append((c, f"save_scsv wrote a header, model header_lines: {m['L'][:80]}"))
                 want = model_csv_text(ms[1], s["delimiter"])
                 if len(parts) != 3 or parts[2] != want:
                     bad.append((c, f"file body differs: implementation {c['text'][-200:]!r}, model rows written by csv.writer {want[-200:]!r}"))
@@ -1610,7 +1785,7 @@ def _run(chk, ok, br, tmp):
                         "broken": chk.cov.get("broken_obligations", []), "disagreements": [m for _, m in bad[:3]]})
     else:
         chk.replay({"kind": "unproved", "broken": chk.cov.get("broken_obligations", []),
-                    "disagreements": [{"input": encode_case(c) if c.get("kind") != "terse" else c["text"], "detail": m} for c, m in bad[:3]],
+                    "disagreements": [{"input": encode_case(c) if c.get("kind") in ("rt", "file") else c["text"], "detail": m} for c, m in bad[:3]],
                     "note": "proof obligation or correspondence no longer checks; no failing input found by the search"},
                    no_input=True)
 
